@@ -550,6 +550,18 @@ def _dead_chain(x):
     return a + 1.0
 
 
+def _dead_fn_call():
+    blk = _single("dead_fn_blk", lambda: Block(4, 4, 3))
+    aux = _single("dead_fn_aux", lambda: Block(4, 4, 4, act="relu"))
+
+    def f(x):
+        _aux = aux(x) + fn_sin2(x)  # noqa: F841  (an auxiliary head that is evaluated but not returned)
+        return blk(x) * 2.0
+
+    return f
+
+
+BUILDERS["dead_fn_call"] = lambda: _p("dead_fn_call", _dead_fn_call(), [(2, 4)])
 BUILDERS["dead_cast"] = lambda: _p("dead_cast", _dead_cast, [(3, 4)], dtypes=[np.int16])
 BUILDERS["dead_transpose"] = lambda: _p("dead_transpose", _dead_transpose, [(3, 4)])
 BUILDERS["dead_reshape"] = lambda: _p("dead_reshape", _dead_reshape, [(3, 4)])
